@@ -45,7 +45,7 @@ func JB(b bool) *J {
 	}
 	return &J{Kind: JFalse}
 }
-func JA(items ...*J) *J { return &J{Kind: JArr, Items: items} }
+func JA(items ...*J) *J  { return &J{Kind: JArr, Items: items} }
 func JO(ms ...Member) *J { return &J{Kind: JObj, Members: ms} }
 
 func (j *J) Get(k string) *J {
@@ -336,7 +336,6 @@ func trunc(s string, n int) string {
 	}
 	return s
 }
-
 
 // FirstDiffUnordered is FirstDiff with object members matched by key.
 func (j *J) FirstDiffUnordered(o *J, path string) string {
